@@ -1,12 +1,12 @@
 SPECIFICATION Spec
 CONSTANTS
   Accts = {"a1","a2"}
-  Denoms = {"aISLM","aLIQUID0"}
+  Denoms = {"aISLM"}
   BadDenoms = {"bad"}
   Amts = {"0","1","2"}
   Ratios <- MC_Ratios
   InitBank = "3"
-  MaxLen = 5
+  MaxLen = 6
   Defects = {}
   Foreign = {"bank_send","bank_multisend"}
   BankAmts = {"1","2"}
